@@ -187,9 +187,21 @@ func FuncBuilder(env *Zlisp, name string,
 
 	// minimal sanity check that we return the number of arguments
 	// on the stack that are declared
+	// A call leaves exactly one value. An empty body returns nil for
+	// zero or one declared result and, like (return nil nil ...), one
+	// array of nils for several; pushing one operand per declared
+	// result left the extra ones on the caller's data stack.
 	if len(body) == 0 {
-		for range retHash.KeyOrder {
+		nret := len(retHash.KeyOrder)
+		if nret > 1 {
+			gen.AddInstruction(PushInstr{SexpMarker})
+		}
+		gen.AddInstruction(PushInstr{expr: SexpNull})
+		for i := 1; i < nret; i++ {
 			gen.AddInstruction(PushInstr{expr: SexpNull})
+		}
+		if nret > 1 {
+			gen.AddInstruction(VectorizeInstr(0))
 		}
 	}
 
